@@ -56,7 +56,7 @@ theorem refinesL2 (nt : Bool) (d0 d1 : Nat) : Refines (kindL2 nt d0 d1) (kindSpe
         exact OutR.ofOpt_some (L2.fromMultiIter_ok hsh) ⟨by rw [toU_mk2]; exact hsh, by rw [toU_mk2]; rfl⟩
       · have hS : (kindSpec true nt [d0, d1]).fromNested (.n2 v) = .panic := by
           simp [kindSpec, Nested.rank, Nested.shapeOk, Nested.outerOk, Nested.innerOk]
-          intro h0; by_contra hc; push_neg at hc; exact hsh ⟨h0, hc⟩
+          intro h0; by_contra hc; exact hsh ⟨h0, fun x hx => by_contra fun hn => hc ⟨x, hx, hn⟩⟩
         rw [hS]
         exact OutR.ofOpt_none (L2.fromMultiIter_none hsh)
   index a fl idx h := by
@@ -96,7 +96,7 @@ theorem refinesL2 (nt : Bool) (d0 d1 : Nat) : Refines (kindL2 nt d0 d1) (kindSpe
         simp only [kindL2, MArrD2.indexMut, MArrD2.down, MArrD2.downMutSet]
         cases a.inner.index i with
         | none => rfl
-        | some r => cases r.indexMut j v <;> rfl
+        | some r => cases hr : r.indexMut j v <;> simp [hr]
       have hS : (kindSpec true nt [d0, d1]).downMutSet fl i [j] v =
           (kindSpec true nt [d0, d1]).indexMut fl [i, j] v := by simp [kindSpec]
       rw [hK, hS]
